@@ -34,6 +34,14 @@ CLAIMS = {
     },
 }
 
+CLAIMS["C11"] = {
+    "category": "exploration",
+    "technique": "reference-model oracle (Python transcription of the conformance/coercion statement) over observed model evaluations; exhaustive enumeration of item-definition trees",
+    "text": "All 5240 item-definition trees to depth 3 (8 simple types x plain / allowedValues / reference / reference+allowedValues / component / isCollection, plus built-in typeRefs) are written as DMN XML, loaded by the real parser and ModelEvaluator and evaluated with one conforming and one violating value at every position of the tree; what reaches the decision logic through inputData (decision and decision-service route) and what a decision, BKM and decision service return through a typed output variable is compared with the statement's prescription (unchanged / component-null / null; unchanged / wrapped / unwrapped / null). Quick runs all per-type-closure trees plus a seeded 1-in-8 sample, thorough all trees (1.25M evaluations).",
+    "note": "Oracle = lib/gitemdef.py conform()/coerce_result(). Null items inside collections and singleton conversions of inputs are undecided; missing / extra components are not generated; typeRef spellings are those of the shipped models. Built on dbg only.",
+    "design_ref": "DESIGN.md §3 C11",
+}
+
 NOT_YET = "check not built yet in this round (work in progress; see DESIGN.md for the planned monitor)"
 
 
